@@ -1,0 +1,349 @@
+//go:build verif
+
+package jschema
+
+import (
+	"encoding/hex"
+	"fmt"
+	"sort"
+	"strconv"
+	"strings"
+
+	"github.com/jsightapi/jsight-schema-go-library/errors"
+	"github.com/jsightapi/jsight-schema-go-library/internal/lexeme"
+	"github.com/jsightapi/jsight-schema-go-library/notations/jschema/internal/checker"
+	"github.com/jsightapi/jsight-schema-go-library/notations/jschema/internal/loader"
+	"github.com/jsightapi/jsight-schema-go-library/notations/jschema/internal/schema"
+	"github.com/jsightapi/jsight-schema-go-library/notations/jschema/internal/schema/constraint"
+)
+
+// Verification hook (build tag verif) for the checker (internal/checker):
+// VerifCheckerDump builds a root schema with added types exactly as the public
+// API does (New / AddType / load / AddUnnamedTypes / CompileAllOf), prints what
+// checker.CheckRootSchema is about to read — the node trees of the root and of
+// every entry of the type table in the order CheckRootSchema visits them, every
+// node with its JSON type, its basis lexeme (type, file, begin, token) and its
+// constraints in insertion order with their parameters — as one S-expression,
+// then runs checker.CheckRootSchema and reports what it did.
+//
+//	stage "pre":     an earlier stage failed (AddType / load / allOf); dump == "".
+//	stage "checker": result is "OK", "ERR <code> <file> <index> <incorrectUserType|->",
+//	                 "RAW <code>" (an errors.Err that no lexeme was attached to) or
+//	                 "CRASH <text>".
+//
+// Files are numbered: 0 = the root's file, i+1 = the file of the i-th added
+// type (their names are "f0", "f1", …; a T entry carries the NAME of its root
+// file, which the order of the unnamed types depends on). The table is printed
+// in sort.Strings order of the names — NOT in the order CheckRootSchema visits
+// it: that order (typeGoesFirst) is part of what the model computes. Unnamed
+// types "#0x…" are renamed "#<rank>" (zero-padded rank in sort.Strings order, so
+// that comparing two renamed names gives what comparing the original names
+// gives; the same renaming inside every types list).
+func VerifCheckerDump(root string, names, texts []string, optionalKeys bool) (stage, dump, result string) {
+	var oo []Option
+	if optionalKeys {
+		oo = append(oo, KeysAreOptionalByDefault())
+	}
+	s := New("f0", root, oo...)
+	fileIdx := map[string]int{"f0": 0}
+	pre := func() (msg string) {
+		defer func() {
+			if r := recover(); r != nil {
+				msg = verifCheckerOutcome(r, fileIdx, nil)
+			}
+		}()
+		for i, nm := range names {
+			fn := "f" + strconv.Itoa(i+1)
+			fileIdx[fn] = i + 1
+			if err := s.AddType(nm, New(fn, texts[i], oo...)); err != nil {
+				return verifCheckerOutcome(err, fileIdx, nil)
+			}
+		}
+		if err := s.load(); err != nil {
+			return verifCheckerOutcome(err, fileIdx, nil)
+		}
+		loader.AddUnnamedTypes(s.inner)
+		loader.CompileAllOf(s.inner)
+		return ""
+	}()
+	if pre != "" {
+		return "pre", "", pre
+	}
+
+	tl := s.inner.TypesList()
+	sorted := make([]string, 0, len(tl))
+	for n := range tl {
+		sorted = append(sorted, n)
+	}
+	sort.Strings(sorted)
+	rename := map[string]string{}
+	k := 0
+	for _, n := range sorted {
+		if strings.HasPrefix(n, "#") {
+			rename[n] = fmt.Sprintf("#%06d", k)
+			k++
+		}
+	}
+	d := verifDumper{fileIdx: fileIdx, rename: rename}
+	func() {
+		defer func() {
+			if r := recover(); r != nil {
+				dump = ""
+				result = fmt.Sprintf("DUMPCRASH %v", r)
+			}
+		}()
+		var sb strings.Builder
+		sb.WriteString("(schema ")
+		if s.inner.RootNode() == nil {
+			sb.WriteString("-")
+		} else {
+			d.node(&sb, s.inner.RootNode())
+		}
+		sb.WriteString(" (types")
+		for _, n := range sorted {
+			t := tl[n]
+			fi := -1
+			fname := ""
+			if t.RootFile() != nil {
+				fname = t.RootFile().Name()
+				if i, ok := fileIdx[fname]; ok {
+					fi = i
+				}
+			}
+			fmt.Fprintf(&sb, " (T %s %d %d %s ", d.name(n), fi, t.Begin(), verifHex([]byte(fname)))
+			if t.Schema() == nil || t.Schema().RootNode() == nil {
+				sb.WriteString("-")
+			} else {
+				d.node(&sb, t.Schema().RootNode())
+			}
+			sb.WriteString(")")
+		}
+		sb.WriteString("))")
+		dump = sb.String()
+	}()
+	if dump == "" {
+		return "checker", "", result
+	}
+
+	result = func() (out string) {
+		defer func() {
+			if r := recover(); r != nil {
+				out = verifCheckerOutcome(r, fileIdx, rename)
+			}
+		}()
+		checker.CheckRootSchema(s.inner)
+		return "OK"
+	}()
+	return "checker", dump, result
+}
+
+func verifCheckerOutcome(r interface{}, fileIdx map[string]int, rename map[string]string) string {
+	switch e := r.(type) {
+	case errors.DocumentError:
+		fi := -1
+		if e.HasFile() {
+			if i, ok := fileIdx[e.Filename()]; ok {
+				fi = i
+			}
+		}
+		ut := e.IncorrectUserType()
+		if n, ok := rename[ut]; ok {
+			ut = n
+		}
+		if ut == "" {
+			ut = "-"
+		} else {
+			ut = hex.EncodeToString([]byte(ut))
+		}
+		return fmt.Sprintf("ERR %d %d %d %s", e.ErrCode(), fi, e.Index(), ut)
+	case errors.Err:
+		return fmt.Sprintf("RAW %d", int(e.Code()))
+	}
+	return fmt.Sprintf("CRASH %v", r)
+}
+
+type verifDumper struct {
+	fileIdx map[string]int
+	rename  map[string]string
+}
+
+func (d verifDumper) name(n string) string {
+	if r, ok := d.rename[n]; ok {
+		n = r
+	}
+	return verifHex([]byte(n))
+}
+
+func verifHex(b []byte) string {
+	if len(b) == 0 {
+		return "-"
+	}
+	return hex.EncodeToString(b)
+}
+
+func verifBool(b bool) string {
+	if b {
+		return "1"
+	}
+	return "0"
+}
+
+// lex prints "<lexeme type> <file> <begin> <token|->".
+func (d verifDumper) lex(sb *strings.Builder, lex lexeme.LexEvent, withValue bool) {
+	lt := "X"
+	switch lex.Type() { //nolint:exhaustive // the others are "X"
+	case lexeme.LiteralEnd:
+		lt = "LE"
+	case lexeme.LiteralBegin:
+		lt = "LB"
+	case lexeme.ObjectBegin:
+		lt = "OB"
+	case lexeme.ObjectEnd:
+		lt = "OE"
+	case lexeme.ArrayBegin:
+		lt = "AB"
+	case lexeme.ArrayEnd:
+		lt = "AE"
+	case lexeme.MixedValueEnd:
+		lt = "ME"
+	case lexeme.MixedValueBegin:
+		lt = "MB"
+	case lexeme.ObjectKeyEnd:
+		lt = "KE"
+	case lexeme.KeyShortcutEnd:
+		lt = "SE"
+	}
+	fi := -1
+	if lex.File() != nil {
+		if i, ok := d.fileIdx[lex.File().Name()]; ok {
+			fi = i
+		}
+	}
+	val := "-"
+	if withValue && lex.File() != nil {
+		func() {
+			defer func() { _ = recover() }()
+			val = verifHex(lex.Value())
+		}()
+	}
+	fmt.Fprintf(sb, "%s %d %d %s", lt, fi, lex.Begin(), val)
+}
+
+func (d verifDumper) node(sb *strings.Builder, n schema.Node) {
+	lex := n.BasisLexEventOfSchemaForNode()
+	switch nn := n.(type) {
+	case *schema.LiteralNode:
+		_ = nn
+		fmt.Fprintf(sb, "(L %d ", int(n.Type()))
+		d.lex(sb, lex, true)
+		sb.WriteString(" ")
+		d.constraints(sb, n)
+		sb.WriteString(")")
+	case *schema.MixedNode:
+		_ = nn
+		fmt.Fprintf(sb, "(M %d ", int(n.Type()))
+		d.lex(sb, lex, true)
+		sb.WriteString(" ")
+		d.constraints(sb, n)
+		sb.WriteString(")")
+	case *schema.MixedValueNode:
+		fmt.Fprintf(sb, "(V %d ", int(n.Type()))
+		d.lex(sb, lex, true)
+		sb.WriteString(" ")
+		d.constraints(sb, n)
+		sb.WriteString(" (gt")
+		for _, nm := range nn.GetTypes() {
+			sb.WriteString(" " + d.name(nm))
+		}
+		sb.WriteString("))")
+	case *schema.ArrayNode:
+		fmt.Fprintf(sb, "(A %d ", int(n.Type()))
+		d.lex(sb, lex, false)
+		sb.WriteString(" ")
+		d.constraints(sb, n)
+		sb.WriteString(" (kids")
+		for _, c := range nn.Children() {
+			sb.WriteString(" ")
+			d.node(sb, c)
+		}
+		sb.WriteString("))")
+	case *schema.ObjectNode:
+		fmt.Fprintf(sb, "(O %d ", int(n.Type()))
+		d.lex(sb, lex, false)
+		sb.WriteString(" ")
+		d.constraints(sb, n)
+		sb.WriteString(" (keys")
+		for _, k := range nn.Keys().Data {
+			fmt.Fprintf(sb, " (K %s %s ", verifHex([]byte(k.Key)), verifBool(k.IsShortcut))
+			d.lex(sb, k.Lex, false)
+			sb.WriteString(")")
+		}
+		sb.WriteString(") (kids")
+		for _, c := range nn.Children() {
+			sb.WriteString(" ")
+			d.node(sb, c)
+		}
+		sb.WriteString("))")
+	default:
+		panic(fmt.Sprintf("verif: node of type %T", n))
+	}
+}
+
+// constraints prints "(cs (c <constraint.Type> <parameters>…)…)" in the
+// insertion order of the constraint map (the order Each visits).
+func (d verifDumper) constraints(sb *strings.Builder, n schema.Node) {
+	sb.WriteString("(cs")
+	n.ConstraintMap().EachSafe(func(k constraint.Type, c constraint.Constraint) {
+		fmt.Fprintf(sb, " (c %d", int(k))
+		switch cc := c.(type) {
+		case *constraint.MinLength:
+			fmt.Fprintf(sb, " %d", cc.Value())
+		case *constraint.MaxLength:
+			fmt.Fprintf(sb, " %d", cc.Value())
+		case *constraint.Min:
+			fmt.Fprintf(sb, " %s %s", verifHex(cc.VerifRaw()), verifBool(cc.Exclusive()))
+		case *constraint.Max:
+			fmt.Fprintf(sb, " %s %s", verifHex(cc.VerifRaw()), verifBool(cc.Exclusive()))
+		case *constraint.ExclusiveMinimum:
+			fmt.Fprintf(sb, " %s", verifBool(cc.IsExclusive()))
+		case *constraint.ExclusiveMaximum:
+			fmt.Fprintf(sb, " %s", verifBool(cc.IsExclusive()))
+		case *constraint.Precision:
+			fmt.Fprintf(sb, " %d", cc.VerifValue())
+		case *constraint.TypeConstraint:
+			fmt.Fprintf(sb, " %s", verifHex(cc.Bytes()))
+		case *constraint.TypesList:
+			for _, nm := range cc.Names() {
+				sb.WriteString(" " + d.name(nm))
+			}
+		case *constraint.Optional:
+			fmt.Fprintf(sb, " %s", verifBool(cc.Bool()))
+		case *constraint.MinItems:
+			fmt.Fprintf(sb, " %d", cc.Value())
+		case *constraint.MaxItems:
+			fmt.Fprintf(sb, " %d", cc.Value())
+		case *constraint.Enum:
+			for _, it := range cc.VerifSources() {
+				sb.WriteString(" " + verifHex(it))
+			}
+		case *constraint.AdditionalProperties:
+			fmt.Fprintf(sb, " %d %s", int(cc.Mode()), d.name(cc.TypeName().String()))
+		case *constraint.AllOf:
+			for _, nm := range cc.SchemaNames() {
+				sb.WriteString(" " + d.name(nm))
+			}
+		case *constraint.Nullable:
+			fmt.Fprintf(sb, " %s", verifBool(cc.Bool()))
+		case *constraint.Regex:
+			fmt.Fprintf(sb, " %s", verifHex([]byte(cc.VerifExpression())))
+		case *constraint.Const:
+			fmt.Fprintf(sb, " %s %s", verifBool(cc.Bool()), verifHex(cc.VerifNodeValue()))
+		case *constraint.RequiredKeys:
+			for _, key := range cc.Keys() {
+				sb.WriteString(" " + verifHex([]byte(key)))
+			}
+		}
+		sb.WriteString(")")
+	})
+	sb.WriteString(")")
+}
